@@ -20,6 +20,7 @@ import (
 	"reflect"
 	"strconv"
 	"strings"
+	"time"
 
 	"github.com/alibaba/sentinel-golang/core/base"
 	cb "github.com/alibaba/sentinel-golang/core/circuitbreaker"
@@ -238,6 +239,9 @@ func (it *Interp) runSched(toks []string) string {
 	nres := make([]int, len(it.progs))
 	rep := sched.Run(ws, es, sched.Options{
 		Prefixes: []string{"cb."},
+		// the only wall-clock dependence of the whole pipeline is the scheduler's watchdog: keep it far above any
+		// pause of the machine (a fired watchdog shows up as an unreadable trace, i.e. as an alarm)
+		StepTimeout: 5 * time.Minute,
 		OnTick:   func(ns uint64) { it.clk.Ns += ns },
 		AfterStep: func(s sched.Step) {
 			from, to := points[s.From], points[s.To]
@@ -315,6 +319,9 @@ func (it *Interp) Step(t []string, op string) string {
 				ys[j] = tf(r)
 			}
 			xs = append(xs, fmt.Sprintf("%d:%s", i, vh.List(ys)))
+		}
+		if len(xs) == 0 {
+			return "-"
 		}
 		return strings.Join(xs, " ")
 	case "log":
